@@ -55,7 +55,9 @@ REQUIRED_THEOREMS = ['Yaql.Props.C12.call_equiv', 'Yaql.Props.C12.ext_both_ways'
                      'Yaql.Props.C12Gen.registered_names_converted', 'Yaql.Props.C12.call_filter_nonkeywords',
                      'Yaql.Props.C12.call_resolver_input', 'Yaql.Props.C12.camel_of_python',
                      'Yaql.Props.C12.toCamel_fixed', 'Yaql.Props.C12.toCamel_idempotent',
-                     'Yaql.Props.C12.call_junk_invariant', 'Yaql.Props.C12.call_nonstring_key_dropped']
+                     'Yaql.Props.C12.call_junk_invariant', 'Yaql.Props.C12.call_nonstring_key_dropped',
+                     'Yaql.Props.C12.starstar_names_verbatim', 'Yaql.Props.C12.starstar_keywords_partition',
+                     'Yaql.Props.C12.starstar_all_verbatim', 'Yaql.Props.C12.starstar_delegate_verbatim']
 TRUSTED = ['harness/gens/registry.py (the dump of the live registry; the reading of decorators from the source text with ast)',
            'the typed value corpus and the canonicalisation of results (harness/values.py)',
            'harness/c12_worker.py (contexts created in the stated order before anything else in that interpreter)']
@@ -75,7 +77,11 @@ ASSUMPTIONS = ['spelling_equiv : spelling_equiv_full (whole argument vector, get
                'a context without a convention passes parameters under their python names as they are (doc-silent; modelled '
                'as implemented; the oracle does not test trailing-underscore names there)',
                'is_keyword is a prefix test (re.match): a key like "a b" counts as a keyword (modelled as implemented; the '
-               'oracle adds only keys that are no keywords under any reading)']
+               'oracle adds only keys that are no keywords under any reading)',
+               'keyword names that no named parameter takes are data: **kwargs receives them as written under every convention '
+               '(starstar sweep: harness-registered kwprobe(*args, **kwargs) / kwprobe2(p_one, second=0, *args, **kwargs), let, '
+               'def; a keyword equal to the PYTHON name of a declared parameter that is not its name in the context is not '
+               'tried - it collides inside Python\'s own call)']
 
 
 def generate():
@@ -450,6 +456,7 @@ class Sink:
         self.cases = []
         self.fails = []
         self.per_key = {}
+        self.ties = []
 
     def bump(self, k, n=1):
         self.hist[k] = self.hist.get(k, 0) + n
@@ -673,6 +680,239 @@ def sweep_context(conv, root, rng, per_fd, sink, replay=None, model_reqs=None, w
                     calls.append((tag, recv, objs, kwo))
                 calls += corner_calls(fd, vis, calls, di + len(calls))
                 model_reqs.append((di, name, fd, case, calls, ctx))
+    if not replay:
+        starstar_sweep(conv, root, common.make_rng(rbase, 'starstar'), 8 * per_fd if where is None else 12 * per_fd, sink, where)
+
+
+# ---- keyword names that bind to **kwargs are DATA -----------------------------------------------------------------
+
+# names a naming convention would rewrite (snake_case, trailing underscores), next to the names they would be rewritten
+# into, names that differ by case only, python names / aliases of the probe's own parameters, names of hidden parameters
+SS_POOL = ['my_var', 'myVar', 'x1', 'x_1', 'a_', 'a', 'a__b', 'a_b', 'aB', 'ab', '_x', 'x', 'X', 'x_', 'k_v', 'kV', 'my_var_',
+           'it_em', 'itEm', '_', 'a_1', 'a1', 'key_selector', 'keySelector', 'len', 'args', 'kwargs', 'context', 'engine',
+           'receiver', 'p_one', 'pOne', 'p_one_', 'POne', 'second', 'second_', 'Second', 'default', 'default_', 'some_arg']
+
+
+def kwprobe(*args, **kwargs):
+    """a host function that shows what it receives"""
+    return ('kwprobe', tuple(args), utils.FrozenDict(kwargs))
+
+
+def kwprobe2(p_one, second=0, *args, **kwargs):
+    return ('kwprobe2', p_one, second, tuple(args), utils.FrozenDict(kwargs))
+
+
+def _ss_names(rng):
+    import evalgen
+    names = []
+    base = rng.choice(SS_POOL)
+    names.append(base)
+    rel = evalgen.relatives(base)
+    if rel and rng.random() < 0.65:
+        names.append(rng.choice(rel))
+    for _ in range(rng.choice((0, 0, 1, 2))):
+        n = rng.choice(SS_POOL)
+        if n not in names:
+            names.append(n)
+    rng.shuffle(names)
+    reads = list(names)
+    for n in names:
+        for r in rng.sample(evalgen.relatives(n), min(2, len(evalgen.relatives(n)))):
+            if r not in reads:
+                reads.append(r)
+    return names, reads
+
+
+def _lit(v):
+    return repr(v) if not isinstance(v, str) else "'%s'" % v
+
+
+def starstar_sweep(conv, root, rng, n_cases, sink, where=None):
+    """every way of handing the same keywords to a function that collects them in **kwargs - written in the expression
+    (`f(.., name => v)`), through `call(f, [..], {name => v})`, as Python keywords of the delegate - gives the function
+    the SAME names, and these are the names as written (whatever the naming convention of the context)"""
+    ctx = root.create_child_context()
+    ctx.register_function(kwprobe)
+    ctx.register_function(kwprobe2)
+    a_one, a_two = greg.promised_kw(conv, None, 'p_one'), greg.promised_kw(conv, None, 'second')
+    bump = sink.bump
+
+    def text(t):
+        return lambda: ENGINE(t).evaluate(context=ctx.create_child_context())
+
+    for ci in range(n_cases):
+        crng = common.make_rng(rng.random(), 'ss/%d' % ci)
+        names, reads = _ss_names(crng)
+        vals = {n: 10 + i for i, n in enumerate(names)}
+        npos = crng.choice((0, 1, 1, 2, 3))
+        pos = [100 + i for i in range(npos)]
+        kind = crng.choice(('kwprobe', 'kwprobe', 'kwprobe2', 'let', 'def'))
+        if kind == 'kwprobe2':
+            for forced, p in ((a_one, 0.6), (a_two, 0.3)):
+                if crng.random() < p and forced not in names:
+                    names.insert(crng.randrange(len(names) + 1), forced)
+                    vals[forced] = 50 + len(names)
+            # a keyword that is the PYTHON name of a declared parameter without being its name in this context would
+            # collide inside Python's own call (TypeError: multiple values); nothing is promised about it
+            names = [n for n in names if n not in ('p_one', 'second') or n in (a_one, a_two)]
+            if not names:
+                continue
+        kws = ', '.join('%s => %d' % (n, vals[n]) for n in names)
+        args_t = ', '.join(str(p) for p in pos)
+        sep = ', ' if pos and names else ''
+        rd = '[%s]' % ', '.join(['$1', '$2'] + ['$' + r for r in reads])
+        spell = []
+        expected = None
+        if kind in ('kwprobe', 'kwprobe2'):
+            spell.append(('written', text('%s(%s%s%s)' % (kind, args_t, sep, kws))))
+            spell.append(('call()', text('call(%s, [%s], {%s})' % (kind, args_t, kws))))
+            spell.append(('delegate', lambda: ctx(kind, ENGINE)(*pos, **{n: vals[n] for n in names})))
+            spell.append(('call-delegate', lambda: ctx('call', ENGINE)(kind, tuple(pos), utils.FrozenDict(
+                (n, vals[n]) for n in names))))
+            if kind == 'kwprobe':
+                expected = ('kwprobe', tuple(pos), utils.FrozenDict((n, vals[n]) for n in names))
+            else:
+                kw = {n: vals[n] for n in names}
+                ok = True
+                if pos:
+                    one = pos[0]
+                    ok = a_one not in kw
+                elif a_one in kw:
+                    one = kw.pop(a_one)
+                else:
+                    ok = False
+                if len(pos) > 1:
+                    two = pos[1]
+                    ok = ok and a_two not in kw
+                else:
+                    two = kw.pop(a_two, 0)
+                if ok:
+                    expected = ('kwprobe2', one, two, tuple(pos[2:]), utils.FrozenDict(kw))
+        elif kind == 'let':
+            spell.append(('written', text('let(%s%s%s) -> %s' % (args_t, sep, kws, rd))))
+            spell.append(('call()', text('call(let, [%s], {%s}) -> %s' % (args_t, kws, rd))))
+            spell.append(('delegate', lambda: ENGINE(rd).evaluate(context=ctx('let', ENGINE)(
+                *pos, **{n: vals[n] for n in names}))))
+            expected = tuple((pos + [None, None])[:2]) + tuple(vals.get(r) for r in reads)
+        else:
+            fn = crng.choice(('probeFn', 'pf1', 'P'))      # (names def() itself mangles are C04's business)
+            df = 'def(%s, %s) -> ' % (fn, rd)
+            spell.append(('written', text('%s%s(%s%s%s)' % (df, fn, args_t, sep, kws))))
+            spell.append(('call()', text('%scall(%s, [%s], {%s})' % (df, fn, args_t, kws))))
+            expected = tuple((pos + [None, None])[:2]) + tuple(vals.get(r) for r in reads)
+        outs = [(tag, outcome(th)) for tag, th in spell]
+        case = dict(starstar=kind, conv=conv, names=names, reads=reads, pos=pos)
+        if where:
+            case.update(where)
+        bump('starstar:' + kind)
+        bump('starstar-spellings', len(outs))
+        for n in names:
+            for cls in _name_classes(n):
+                bump('starstar-name:' + cls)
+        sink.case(common.digest(case), len(outs) >= 2)
+        loc = '[%s context%s]' % (conv, ' #%d of %s' % (where['ctx_index'], '>'.join(where['order'])) if where else '')
+        written = outs[0][1]
+        shown = '%s with keywords %s%s' % (kind, kws, ' after %d positional' % npos if npos else '')
+        if expected is not None:
+            exp = outcome(lambda: expected)
+            if written != exp:
+                sink.fail('oracle', 'starstar-verbatim:' + kind,
+                          '%s %s written in the expression: the function receives %s, the names as written are %s' % (
+                              loc, shown, pretty(written), pretty(exp)), case)
+        elif not written.startswith('err:'):
+            sink.fail('oracle', 'starstar-verbatim:' + kind, '%s %s: a required parameter is missing or passed twice, yet '
+                      'the call returns %s' % (loc, shown, pretty(written)), case)
+        diff = [(t, o) for t, o in outs[1:] if o != written]
+        if diff:
+            sink.fail('oracle', 'starstar-spelling:' + kind,
+                      '%s %s: written in the expression -> %s but through %s -> %s' % (
+                          loc, shown, pretty(written), diff[0][0], pretty(diff[0][1])), case)
+        if kind == 'kwprobe2' and not written.startswith('err:') and not written.startswith('unencodable'):
+            # tie to Yaql.Naming.splitKeywords: which keywords the named parameters take, which go to **kwargs
+            try:
+                got = json.loads(written)
+                sink.ties.append(dict(c=conv, decl=[['p_one', None], ['second', None]], kw=names, npos=npos,
+                                      real=sorted(_dict_keys(got))))
+            except Exception:
+                pass
+
+
+def pretty(o):
+    """an outcome string in readable form"""
+    if o.startswith('err:') or o.startswith('unencodable'):
+        return o
+
+    def dec(j):
+        if isinstance(j, dict) and len(j) == 1:
+            (k, x), = j.items()
+            if k == 's':
+                return x if isinstance(x, str) else ''.join(chr(c) for c in x)
+            if k == 'i':
+                return int(x)
+            if k in ('tu', 'li', 'it', 'se'):
+                return [dec(t) for t in x]
+            if k == 'd':
+                return {repr(dec(a)) if not isinstance(dec(a), str) else dec(a): dec(b) for a, b in x}
+        return j
+    try:
+        return json.dumps(dec(json.loads(o)))[:240]
+    except Exception:
+        return o[:240]
+
+
+def _dict_keys(canon_json):
+    """the keys of the LAST dict inside the canonical encoding of kwprobe2's result"""
+    found = []
+
+    def walk(j):
+        if isinstance(j, dict):
+            if 'd' in j:
+                found.append([_str_of(k) for k, _ in j['d']])
+            for v in j.values():
+                walk(v)
+        elif isinstance(j, list):
+            for v in j:
+                walk(v)
+    walk(canon_json)
+    return found[-1] if found else []
+
+
+def _str_of(j):
+    if isinstance(j, dict) and 's' in j:
+        x = j['s']
+        return x if isinstance(x, str) else ''.join(chr(c) for c in x)
+    return repr(j)
+
+
+def _name_classes(n):
+    out = []
+    core = n.rstrip('_')
+    if core != n:
+        out.append('trailing-underscore')
+    if n.startswith('_'):
+        out.append('leading-underscore')
+    if re.search(r'(?!^)_\w', core):
+        out.append('inner-underscore')
+    if any(c.isupper() for c in n):
+        out.append('upper-case')
+    if any(c.isdigit() for c in n):
+        out.append('digit')
+    return out or ['plain']
+
+
+def split_ties(drv, sink):
+    """(T5) Yaql.Naming.splitKeywords against what the host function kwprobe2 received in **kwargs"""
+    items = [t for t in sink.ties if t['npos'] == 0] 
+    if not items or drv is None:
+        return 0
+    out = drv.ask(dict(p='C12', op='split', items=[dict(c=t['c'], decl=t['decl'], kw=t['kw']) for t in items]))['out']
+    for t, m in zip(items, out):
+        model = sorted(k for k, _ in m['starstar'])
+        if model != t['real']:
+            sink.fail('mismatch', 'naming:splitKeywords', '[%s context] kwprobe2(%s): **kwargs received %r, the model hands over %r'
+                      % (t['c'], ', '.join(t['kw']), t['real'], model), dict(t))
+    sink.bump('tie:split-keywords', len(items))
+    return len(items)
 
 
 # ---- worker interpreters: one per creation order ---------------------------------------------------------------
@@ -709,7 +949,7 @@ def worker_main(req, ctxs):
         sink.bump('context:%s' % conv)
         sink.bump('tuples:%s#%d-of-%s' % (conv, i, '>'.join(o[0] for o in order)),
                   sink.hist.get('tuples', 0) - before.get('tuples', 0))
-    return dict(hist=sink.hist, cases=sink.cases, fails=sink.fails)
+    return dict(hist=sink.hist, cases=sink.cases, fails=sink.fails, ties=sink.ties)
 
 
 def collect_worker(order, p, sink, res, timeout):
@@ -727,6 +967,7 @@ def collect_worker(order, p, sink, res, timeout):
         res.case(sig, nt)
     for kind, key, what, rp in r['fails']:
         sink.fail(kind, key, what, rp)
+    sink.ties += r.get('ties', [])
 
 
 # ---- ties of Yaql.Naming to the real naming / filtering functions --------------------------------------------------
@@ -879,7 +1120,9 @@ def run(env, res):
     res.rule = ('every registered definition x argument tuples from a typed corpus (values that pass the parameter\'s own '
                 'check; each defaulted parameter given or left out) x spellings (all positional, every positional/keyword '
                 'split, the names the convention promises, explicit defaults, method form, call() with and without keys '
-                'that are no keywords) x contexts of every naming convention in several creation orders; '
+                'that are no keywords) x contexts of every naming convention in several creation orders; plus the starstar sweep: '
+                'functions that collect keywords in **kwargs (a host probe that returns what it received, let, def) x keyword '
+                'names a convention would rewrite next to their rewritings x written-in-the-expression / call() / delegate; '
                 'distinct = (context, definition, tuple); non-trivial = at least two spellings and the positional '
                 'spelling resolves')
     replay = json.load(open(env['replay']))['case'] if env['replay'] else None
@@ -903,6 +1146,7 @@ def run(env, res):
     bump = sink.bump
     if drv is not None and replay is None:
         res.traces += naming_ties(drv, common.make_rng(env['seed'], 'C12/naming'), sink, 300 if tier == 'quick' else 3000, defs)
+        res.traces += split_ties(drv, sink)
     # ---- (B)
     if drv is not None:
         nb = 0
@@ -998,7 +1242,10 @@ LEVEL_TEXT = ('Lean 4: call_equiv, ext_both_ways, kind_exclusive, spelling_equiv
               'fresh interpreters; regenerated per run). Tie: every registered definition called through the real resolver '
               'in every spelling on typed corpus tuples (same result / error class) in contexts of every convention and '
               'creation order, call() with extra non-keyword keys, map_args/get_delegate of the real definition against the '
-              'model per spelling, and the naming / filtering functions against the model.')
+              'model per spelling, and the naming / filtering functions against the model.  Keyword names that bind to **kwargs '
+              'are data (starstar_names_verbatim / starstar_keywords_partition / starstar_all_verbatim over Naming.splitKeywords '
+              'for every convention, starstar_delegate_verbatim at get_delegate level); tie: what a **kwargs function receives '
+              'for adversarial names written in the expression, through call() and as delegate keywords, in every convention.')
 LEVEL_NOTE = ('trusted: Lean kernel; Model/Types, Resolve, RegistryRow, Naming; the registry dump; the corpus. spelling_equiv is '
               'proved for the whole vector (spelling_equiv_full, with the guards named in ASSUMPTIONS); map_args by itself is '
               'shown not to be spelling-invariant (constants passed by keyword are not checked there; an empty slot whose '
